@@ -11,7 +11,7 @@ Import ListNotations.
 Section Hist.
   Variable A : CsgOps.
   Hypothesis LW : CsgLaws A.
-  Variable uniq : nat -> nat -> bool.
+  Variable uniq : heap A -> nat -> bool.
   Variable ovl : (sol A * tr A) -> (sol A * tr A) -> bool.
   Variable sz : (sol A * tr A) -> Z.
   Variable kmax : nat.
@@ -507,3 +507,23 @@ Section Hist.
     rewrite <- Hd. rewrite (dn_leaf A _ _ _ G2). reflexivity.
   Qed.
 End Hist.
+
+(* the same, with every use_count answer DERIVED from the heap and the live handles (uniq_rc): the model decides
+   canCollapse by counting owners, as the code does *)
+Theorem do_hops_rc_ok (A : CsgOps) (LW : CsgLaws A) ovl sz kmax :
+  ovl_sound A ovl -> 2 <= kmax ->
+  forall l fuel s sp sp',
+    rel A s sp -> spec_hops A sp l = Some sp' -> length (cells A (st_heap A s)) + length l <= fuel ->
+    exists s', do_hops_rc A ovl sz kmax fuel false s l = Some s' /\ rel A s' sp' /\
+               ext A (st_heap A s) (st_heap A s') /\
+               length (cells A (st_heap A s')) <= length (cells A (st_heap A s)) + length l.
+Proof.
+  intros OS K2. induction l as [|x r IH]; intros fuel s sp sp' R H Hf; cbn [spec_hops do_hops_rc] in *.
+  - inversion H; subst. exists s. split; [reflexivity|]. split; [assumption|]. split; [apply (ext_refl A LW)|cbn; lia].
+  - destruct (spec_hop A sp x) as [sp1|] eqn:E1; [|discriminate].
+    destruct (do_hop_ok A LW (uniq_rc A (st_handles A s)) ovl sz kmax OS K2 fuel s sp x sp1 R E1 ltac:(cbn in Hf; lia))
+      as (s1 & D1 & R1 & X1 & L1).
+    unfold do_hop_rc. rewrite D1.
+    destruct (IH fuel s1 sp1 sp' R1 H ltac:(cbn in Hf; lia)) as (s' & D' & R' & X' & L').
+    exists s'. split; [assumption|]. split; [assumption|]. split; [eapply (ext_trans A LW); eassumption|cbn; lia].
+Qed.
